@@ -88,12 +88,17 @@ open QV QV.Writer QV.ServerSafety
    that every call is typed (`ApiTyped`: `Op.Typed`, the `u16` bounds of `set_edns` / `set_tsig`, and
    non-empty RRsets). It also needs the limits to be at most 65535 (the largest DNS message; RDLENGTH
    and the TCP length prefix are 16-bit): (d) is proved for finished messages of at most 65535
-   octets. The driver generates typed calls and limits below 65536 only. -/
+   octets. And the MAC handed over must have exactly the output size of the algorithm when the TSIG mode
+   signs (`MacLenOK` only bounds it; the specification's `tsigRecordOk` compares the RDATA length with
+   the algorithm's size). The driver generates typed calls, limits below 65536 and MACs of the right
+   size only. -/
 def C12_full : Prop :=
   ∀ (buf : Bytes) (limit : Nat) (mode : CMode) (s : State) (ops : List Op) (mac : Option (List UInt8)),
     Writer.new buf limit = .ok s → Respects { w := { s with mode := mode } } ops →
     (∀ op ∈ ops, ApiTyped op) → limit ≤ 65535 → (∀ v, Op.setLimit v ∈ ops → v ≤ 65535) →
     MacLenOK (fun _ _ => mac.getD []) →
+    (∀ ts, (run { w := { s with mode := mode } } ops).1.w.tsig = some ts → isUnsigned ts.mode = false →
+      (mac.getD []).length = (toATsig ts).macLen) →
     let r := Driver.runModel { w := { s with mode := mode } } ops mac true
     ∃ m, r.msg = some m ∧
       Spec.Message.checkSession buf.size limit (Driver.toSpecMode mode) (ops.map Driver.toSpecOp)
